@@ -453,6 +453,8 @@ def _fix_first_paren_new_line(oViolation):
         rules_utils.insert_carriage_return(lTokens, 0)
         oViolation.set_tokens(lTokens)
     elif dAction["action"] == "remove":
+        if utils.does_token_type_exist_in_list_of_tokens(parser.comment, lTokens):
+            return
         lNewTokens = []
         lNewTokens.append(lTokens[0])
         rules_utils.append_whitespace(lNewTokens)
@@ -495,6 +497,8 @@ def _fix_open_paren_new_line(oViolation):
         rules_utils.append_whitespace(lTokens)
         oViolation.set_tokens(lTokens)
     elif dAction["action"] == "remove":
+        if utils.does_token_type_exist_in_list_of_tokens(parser.comment, lTokens):
+            return
         lNewTokens = []
         lNewTokens.append(lTokens[0])
         lNewTokens.append(lTokens[-1])
@@ -510,6 +514,8 @@ def _fix_close_paren_new_line(oViolation):
         rules_utils.insert_carriage_return(lTokens, 1)
         oViolation.set_tokens(lTokens)
     elif dAction["action"] == "remove":
+        if utils.does_token_type_exist_in_list_of_tokens(parser.comment, lTokens):
+            return
         lNewTokens = []
         lNewTokens.append(lTokens[0])
         lNewTokens.append(lTokens[-1])
@@ -527,6 +533,8 @@ def _fix_new_line_after_comma(oViolation):
             rules_utils.insert_carriage_return(lTokens, 1)
         oViolation.set_tokens(lTokens)
     elif dAction["action"] == "remove":
+        if utils.does_token_type_exist_in_list_of_tokens(parser.comment, lTokens):
+            return
         lNewTokens = []
         lNewTokens.append(lTokens[0])
         lNewTokens.append(parser.whitespace(" "))
